@@ -196,13 +196,15 @@ pub fn worker_main(args: &[String], resolve: &dyn Fn(&str) -> Option<(&'static s
     // index (from the shared progress cell) is re-run in probe mode, and the block is resumed.
     let all_probe = cx.probe;
     let mut a = lo;
-    let mut deaths_in_a_row = 0;
+    // adaptive block size: after a death the blocks shrink (less work is lost per death when deaths
+    // are dense), after a clean block they grow back
+    let mut cur = block;
     while a < hi {
-        let b = (a + block).min(hi);
+        let b = (a + cur).min(hi);
         match run_block_in_child(&mut cx, run, a, b, &out, &prog_path, all_probe) {
             None => {
                 a = b;
-                deaths_in_a_row = 0;
+                cur = (cur * 2).min(block);
             }
             Some(how) => {
                 let (idx, _ord, st) = Progress::read_file(&prog_path).unwrap_or((0, 0, 0));
@@ -222,8 +224,7 @@ pub fn worker_main(args: &[String], resolve: &dyn Fn(&str) -> Option<(&'static s
                     std::process::exit(3);
                 }
                 a = idx + 1;
-                deaths_in_a_row += 1;
-                let _ = deaths_in_a_row;
+                cur = (cur / 4).clamp(8, block);
             }
         }
     }
